@@ -119,6 +119,26 @@ def execute(case):
                         "detail": f"{name}: word {tuple(int(x) for x in bad)} file=0x{int(want[tuple(bad)]):08x} loaded=0x{int(got[tuple(bad)]):08x}",
                     }
                 )
+                continue
+            # the same opened array, read again in other orders (start from non-initial states): last line
+            # first, then everything; line by line; first line, then everything - all must still be the file
+            view = "=u2" if tc == "IU2" else "=u4"
+
+            def words(x):
+                return np.ascontiguousarray(np.asarray(x)).view(view).reshape(-1)
+
+            steps = [("last line", lambda: words(var.isel(rows=L - 1).values), want[L - 1]), ("full after last line", lambda: words(var.values), want.reshape(-1))]
+            steps += [(f"line {k} alone", (lambda k=k: words(var.isel(rows=k).values)), want[k]) for k in range(L)]
+            steps += [("first line", lambda: words(var.isel(rows=slice(0, 1)).values), want[0]), ("full after first line", lambda: words(var.values), want.reshape(-1))]
+            for label, fn, expect in steps:
+                try:
+                    again = fn()
+                except Exception as e:
+                    fails.append({"sig": {"kind": "reread-raises", "type": tc}, "detail": f"{name}: {label} (after earlier reads of the same array) raises {type(e).__name__}: {str(e)[:80]}"})
+                    break
+                if not np.array_equal(again, expect.reshape(-1)):
+                    fails.append({"sig": {"kind": "reread-value", "type": tc}, "detail": f"{name}: {label} (after earlier reads of the same array) differs from the file"})
+                    break
     return {"ok": not fails, "failures": fails, "outcome": f"{tc}:{'ok' if not fails else fails[0]['sig']['kind']}", "nontrivial": True}
 
 
